@@ -149,7 +149,9 @@ class H1(Case):
                 t = steps[i] if isint[i] else times[self.kinds[i]][0]
                 control.add_single(t, mats[i], post=posts[i])
             pre, post = control.get_controls(q, dt=dt, start_time=start)
-        obs = []
+            pre2, post2 = control.get_controls(q, dt=dt, start_time=start)
+        obs = [Ob.holds("asking again gives the same pre/post operators (a query does not change what is registered)",
+                        all_of([_same(pre2, pre), _same(post2, post)]), key="repeatable")]
         for side_name, got, want_post in (("pre", pre, False), ("post", post, True)):
             members = [i for i in range(len(mats))
                        if _truth(all_of([steps[i] == q, posts[i] if want_post else _neg(posts[i])]))]
@@ -306,8 +308,15 @@ class H3a(Case):
         obs = []
         for want_post in (False, True):
             got = cc.get_single_site_controls(q, want_post)
+            again = cc.get_single_site_controls(q, want_post)
             exp = _expected_site_controls(regs, 2, q, want_post)
             name = "post" if want_post else "pre"
+            if got is None or again is None:
+                same = got is None and again is None
+            else:
+                same = all_of([_same(again[k], got[k]) for k in range(2)])
+            obs.append(Ob.holds("%s: asking again gives the same operators (each control acts once however often the step is queried)" % name,
+                                same, key="repeatable"))
             empty = all(e is None for e in exp)
             obs.append(Ob.holds("%s: None iff nothing registered for the step" % name, (got is None) == empty, key="none_iff_empty"))
             if got is None or empty:
@@ -335,8 +344,8 @@ class H3b(Case):
     env = ENV_CH
     timeout_s = 300
 
-    def __init__(self, n_ctrl, N, mode, bonds=(2, 1), pair=True):
-        self.n_ctrl, self.N, self.mode, self.bonds, self.pair = n_ctrl, N, mode, bonds, pair
+    def __init__(self, n_ctrl, N, mode, bonds=(2, 1), pair=True, twice=False):
+        self.n_ctrl, self.N, self.mode, self.bonds, self.pair, self.twice = n_ctrl, N, mode, bonds, pair, twice
         self.id = "H3/%s/pt_tebd_k%d_N%d_b%d%d" % (mode, n_ctrl, N, bonds[0], bonds[1])
         self.bounds = {"sites": 2, "d": 2, "controls": n_ctrl, "N": N, "mode": mode, "pt bonds": list(bonds)}
 
@@ -359,6 +368,13 @@ class H3b(Case):
         tebd = ptt.PtTebd(mps, chain, pts, par, chain_control=cc, dynamics_sites=sites)
         with _quiet():
             res = tebd.compute(N, progress_type="silent")
+        res2 = None
+        if self.mode == "stack_order" or self.twice:
+            # the same ChainControl drives a second computation: every control still acts exactly once
+            mps2 = oqupy.AugmentedMPS([g[0].copy(), g[1].copy()])
+            tebd2 = ptt.PtTebd(mps2, chain, pts, par, chain_control=cc, dynamics_sites=[0, 1])
+            with _quiet():
+                res2 = tebd2.compute(N, progress_type="silent")
         eye = inp.const(np.identity(D))
         ident = [eye] * N
         obs = []
@@ -380,6 +396,12 @@ class H3b(Case):
             for n in range(min(N + 1, len(states))):
                 exp = (vs[k, n] * tr(vs[1 - k, n])).reshape(2, 2)
                 obs.append(ob_eq_poly(inp, "site %d state %d" % (k, n), states[n], exp, key="state"))
+            if res2 is not None:
+                states2 = list(res2["dynamics"][k]._states)
+                for n in range(min(N + 1, len(states2))):
+                    exp = (vs[k, n] * tr(vs[1 - k, n])).reshape(2, 2)
+                    obs.append(ob_eq_poly(inp, "second computation with the same ChainControl: site %d state %d" % (k, n),
+                                          states2[n], exp, key="state_second_run"))
         if self.pair:
             states = list(res["dynamics"][(0, 1)]._states)
             for n in range(min(N + 1, len(states))):
